@@ -108,7 +108,11 @@ def _tol(case):
     sol = case["solver"]
     t = 1e-9
     if sol.get("T_el"):
-        t = 1e-6      # measured on the unchanged tree with Fermi occupations: alone vs batch <= 5e-8
+        # Fermi occupations: alone-vs-batch differences on the unchanged tree do not scale with eps (0.1..130 eps); largest values
+        # measured over ~900 generated rows: dE 2e-8, dF 1.1e-6 (PM3 NH4+ distorted by 0.15 A at 5000 K), dq 2e-9. I first adopted
+        # 1e-6 from hearsay without calibrating and the check fired at 1.07e-6 on the unchanged tree. 2e-5 keeps a ~20x margin; the
+        # seeded occupation-mask defect gives dF = 8e-4, dE = 1.6e-2 at 10000 K.
+        t = 2e-5
     if sol["conv"][0] == 2:
         t = 1e-8 + 1e4 * sol["eps"]
     if sol["sp2"][0]:
